@@ -134,17 +134,23 @@ prop("C08", level="exploration",
      stages=[
          dict(pkg="selval", test="TestValidator", sub="validator", race=True,
               cases=dict(quick=20000, thorough=400000), timeout=3600),
+         # end to end: raw requestor -> default-configured responder whose application hooks pause the request and/or attach extensions
+         dict(pkg="fullstack", test="TestC08", sub="e2e", race=True, vary_gomaxprocs=True,
+              cases=dict(quick=600, thorough=8000), timeout=3600),
      ],
      technique="runtime monitoring: differential oracle - the real ValidateMaxRecursionDepth / default-configured responder versus an independent recursive-descent analyser of the selector spec, over grammar-generated well-formed selectors with planted limits",
      level_text=("Grammar-generated well-formed selectors (kept iff selector.ParseSelector accepts them) with recursion limits planted under every "
                  "clause kind are given to the real validator; its verdict must equal that of an independent analyser written from the "
-                 "selector spec. End-to-end requests to a default-configured responder check the RequestRejected status on the wire."),
+                 "selector spec. Stage e2e: a raw requestor sends generated selectors (planted limits, chains and trees) to a responder with default settings whose application request hook does nothing / pauses without validating / "
+                 "attaches an extension / both; paused requests are then unpaused by the application. Offending selectors must be answered RequestRejected with no block traversed or sent (also after the Unpause); "
+                 "the others must not be rejected and must reach a terminal answer."),
      level_note="Well-formedness is what go-ipld-prime's ParseSelector accepts; the analyser knows the clause kinds matcher, all, fields, index, range, union, recursive, edge, interpret-as (others are skipped and counted).",
      rule=("One evaluation = one generated selector (nesting depth <= 6, field names that collide with selector keys, limits {0,1,2,50,99,100} "
            "plus planted {none,101,102,10^6,...}) compared between validator and analyser. Non-trivial = parsed and analysed; distinct by the "
            "selector's dag-json text. distinct_sets.offending_recursion_contexts = distinct (clause kinds on the path, limit kind) of offending recursions."),
      min_nontrivial=dict(quick=5000, thorough=100000),
-     min_counters=dict(selectors_with_offending_recursion=dict(quick=2000, thorough=40000), offending_recursions_under_interpret_as=dict(quick=300, thorough=5000)),
+     min_counters=dict(selectors_with_offending_recursion=dict(quick=2000, thorough=40000), offending_recursions_under_interpret_as=dict(quick=300, thorough=5000),
+                       offending_requests_rejected=dict(quick=100, thorough=1500), valid_requests_answered=dict(quick=100, thorough=1500)),
      assumptions=["go-ipld-prime's ParseSelector defines well-formedness"])
 
 
